@@ -175,7 +175,8 @@ func srRun(cs srCase) *srResult {
 			CacheEnabled: cs.Cache > 0,
 		}, nil, nil, nil)
 	}
-	logs := []*PartitionLog{mk("orders", 0), mk("orders", 1), mk("orders2", 0)}
+	// the log under test is partition 1 so that a constant 0 / default partition in a key is visible
+	logs := []*PartitionLog{mk("orders", 1), mk("orders", 0), mk("orders2", 1)}
 	xors := []byte{0, 0x5a, 0xa5}
 	arts := make([]*SegmentArtifact, len(logs))
 	main := logs[0]
@@ -447,6 +448,7 @@ func srRead(cs srCase, op srOp, res *srResult, main *PartitionLog, s3 *srS3, liv
 		return
 	}
 	i0 := -1
+	var cands []int // every batch boundary from which the result is a prefix of the log (short results are ambiguous)
 	if err == nil {
 		// C03: a run of this partition's log
 		for i := range live {
@@ -463,9 +465,11 @@ func srRead(cs srCase, op srOp, res *srResult, main *PartitionLog, s3 *srS3, liv
 				total += n
 			}
 			if ok && total == len(data) {
-				i0 = i
-				break
+				cands = append(cands, i)
 			}
+		}
+		if len(cands) > 0 {
+			i0 = cands[0] // C03: the earliest boundary is the easiest to justify
 		}
 		switch {
 		case len(data) == 0:
@@ -493,6 +497,12 @@ func srRead(cs srCase, op srOp, res *srResult, main *PartitionLog, s3 *srS3, liv
 		if err != nil {
 			res.c04 = append(res.c04, srFail{"progress", "error-below-high-watermark", fmt.Sprintf("%s failed with %v although batch [%d,%d] is readable", desc, err, live[idx].base, live[idx].last)})
 		} else if i0 >= 0 {
+			// C04 is existential too: the latest boundary at or before the holding batch is the best reading
+			for _, c := range cands {
+				if c <= idx {
+					i0 = c
+				}
+			}
 			dist := 0
 			for j := i0; j < idx; j++ {
 				dist += len(live[j].bytes)
@@ -785,7 +795,7 @@ func srTest(t *testing.T, prop string) {
 			runOne(cs)
 		}
 		r := vNewRand(vSeed() ^ uint64(len(prop))<<32 ^ uint64(prop[2]))
-		n := vN(120, 1600)
+		n := vN(70, 1200)
 		for i := 0; i < n; i++ {
 			runOne(srGen(r.Fork(), prop))
 		}
